@@ -366,6 +366,62 @@ def _same(a, b):
     return ast.dump(a) == ast.dump(b)
 
 
+_NONEMPTY_CACHE = {}
+
+
+def nonempty_generators(root):
+    """{module name: generator functions of that module every path of which passes a `yield` before it finishes}.  Only
+    pyasn1/codec/streaming.py is looked at (the stream readers every decoder loop iterates over)."""
+    if root in _NONEMPTY_CACHE:
+        return _NONEMPTY_CACHE[root]
+    out = {}
+    rel = 'pyasn1/codec/streaming.py'
+    try:
+        with open(os.path.join(root, rel)) as fh:
+            t = ast.parse(fh.read())
+        from sa.cfg import CFG
+        names = set()
+        for f in t.body:
+            if not isinstance(f, ast.FunctionDef):
+                continue
+            if not any(isinstance(x, (ast.Yield, ast.YieldFrom)) for x in ast.walk(f)):
+                continue
+            g = CFG(f)
+            def yields(n):
+                return n.ast is not None and n.kind == 'stmt' and any(isinstance(x, (ast.Yield, ast.YieldFrom)) for x in ast.walk(n.ast))
+            if g.must_pass(g.entry, g.exit, yields):
+                names.add(f.name)
+        out['pyasn1.codec.streaming'] = names
+    except Exception:
+        out = {}
+    _NONEMPTY_CACHE[root] = out
+    return out
+
+
+def _nonempty_names(tree, relpath):
+    root = getattr(tree, '_root', None)
+    if not root:
+        return set()
+    table_ = nonempty_generators(root)
+    names = set()
+    for n in tree.body:
+        if isinstance(n, ast.ImportFrom) and n.module in table_ and not n.level:
+            for a in n.names:
+                if a.name in table_[n.module]:
+                    names.add(a.asname or a.name)
+    if relpath.replace('/', '.')[:-3] in table_:
+        names |= table_[relpath.replace('/', '.')[:-3]]
+    # a local definition or assignment of the same name hides the import
+    for n in ast.walk(tree):
+        if isinstance(n, (ast.FunctionDef, ast.ClassDef)) and n.name in names and relpath.replace('/', '.')[:-3] not in table_:
+            names.discard(n.name)
+        elif isinstance(n, ast.Name) and isinstance(n.ctx, ast.Store) and n.id in names:
+            names.discard(n.id)
+        elif isinstance(n, ast.arg) and n.arg in names:
+            names.discard(n.arg)
+    return names
+
+
 def as_reference(tree, relpath, done):
     """A function whose behavioural normal form (sa/equiv.py) equals that of the reference function of the same name is
     analysed in its reference form: its body is replaced by the reference body.  The replacement is behaviour-preserving
@@ -383,6 +439,7 @@ def as_reference(tree, relpath, done):
     reff = reference_functions(relpath)
     if not reff:
         return set()
+    equiv.NONEMPTY = frozenset(_nonempty_names(tree, relpath))
     proven = set()
     cur = functions(tree)
     status = {}
